@@ -8,7 +8,8 @@ Hand-written, branch for branch, of the code *as it is after* `fixes/C11-set-err
   * `Rule.parse` (origin transform, args parser, re-wrap) rule.py:1681-1716 → `parseSeqRule`, `parseMapRule`
   * `ParserField.parse_value` utype/parser/field.py:1063-1089  → `parseValue`
   * `BaseParser.parse_addition` utype/parser/base.py:390-421   → `parseAddition`
-  * `BaseParser.field_first_parse / data_first_parse` base.py:423-619 (fragment) → `parseDataFF / parseDataDF`
+  * `BaseParser.field_first_parse / data_first_parse` base.py:444-650 (fragment, incl. `dependencies`) → `parseDataFF / parseDataDF`
+  * `ParserField.is_required` field.py:805-814 (mode-dependent `required`) → `Req.holds`, `FieldDecl.resolve`
   * `FunctionParser.parse_pos_type / parse_params` func.py:576-626 → `parsePosType`, `parseVarArgs`
   * `ParserField.parse_output_value` field.py:984-1010, `Schema.__post_init__` schema.py:262-268 → `parseOutputValue`, `parseProps`
 
@@ -20,8 +21,8 @@ What is *not* C11's business is abstract, so every theorem holds for all of it:
   * a dict / set result is modelled as its *insertion log* (`result[key] = val` in order,
     `set(result)`): the final `dict`/`set` is a function of the log, built by CPython in the harness.
 
-Fragment: fail-fast (`collect_errors=False`), no `max_depth`, fields without alias / no_input /
-dependencies / mode-dependent `required`, `ignore_required=False`.  The harness only generates such
+Fragment: fail-fast (`collect_errors=False`), no `max_depth`, fields without alias / no_input / field-level
+`mode`, `ignore_required=False`.  Mode-dependent `required`, defaults and `dependencies` are modelled.  The harness only generates such
 declarations (design.d/C11.md).
 -/
 namespace Utv.C11
@@ -194,10 +195,36 @@ def parseMapRule {α : Type} (W : World α) (pk pv : Policy) (kp : Parser α) (v
 
 structure Field (κ α : Type) where
   name : κ
-  required : Bool
+  required : Bool               -- `is_required(options)` for the options of this parse (see `FieldDecl.resolve`)
   default : Option α            -- `get_default(options, defer=False)`; none = unprovided
   onError : Option Policy       -- `Field(on_error=…)`; none = fall back to options.invalid_values
+  deps : List κ := []           -- `Field(dependencies=[…])`, by output name
   parse : Parser α
+
+/-- `Field(required=…)`: `False`, `True`, or a string of modes (`required='w'`). -/
+inductive Req (μ : Type) where
+  | no | yes | modes (ms : List μ)
+
+/-- `ParserField.is_required` (field.py:805-814) without `ignore_required` / `always_no_input`:
+`required is True` → True; no `options.mode` → False; else `options.mode in self.required`. -/
+def Req.holds {μ : Type} [DecidableEq μ] : Req μ → Option μ → Bool
+  | .no, _ => false
+  | .yes, _ => true
+  | .modes _, none => false
+  | .modes ms, some m => ms.contains m
+
+/-- a field as declared; which fields are required is only known once `Options.mode` is -/
+structure FieldDecl (μ κ α : Type) where
+  name : κ
+  req : Req μ
+  default : Option α
+  onError : Option Policy
+  deps : List κ := []
+  parse : Parser α
+
+def FieldDecl.resolve {μ κ α : Type} [DecidableEq μ] (mode : Option μ) (d : FieldDecl μ κ α) : Field κ α :=
+  { name := d.name, required := d.req.holds mode, default := d.default, onError := d.onError, deps := d.deps,
+    parse := d.parse }
 
 inductive FieldOut (α : Type) where
   | value (v : α) | unprovided | raise
@@ -219,6 +246,23 @@ def parseValue {κ α : Type} (inv : Policy) (f : Field κ α) (x : α) : FieldO
         | none => .unprovided
     | .preserve => .value x                          -- :1084-1086
     | .throw => .raise                               -- :1087-1088
+
+/-- `parse_value(value, context, excluded_as_absent=True)` (field.py, after
+`fixes/C11-excluded-as-absent.patch`): as the data loops call it — an excluded value is reported as
+unprovided whether or not a default exists, the loop then treats the field as not given. -/
+def parseValueAbs {κ α : Type} (inv : Policy) (f : Field κ α) (x : α) : FieldOut α :=
+  match f.parse x with
+  | some y => .value y
+  | none =>
+    match f.policy inv with
+    | .exclude => if f.required then .raise else .unprovided
+    | .preserve => .value x
+    | .throw => .raise
+
+/-- what the data loops get for a provided value: after the fix `parseValueAbs`, before it `parseValue`
+(the default of an excluded value was indistinguishable from an accepted value). -/
+def fieldStep {κ α : Type} (fix : Bool) (inv : Policy) (f : Field κ α) (x : α) : FieldOut α :=
+  if fix then parseValueAbs inv f x else parseValue inv f x
 
 /-- `options.addition` as `parse_addition` reads it. -/
 inductive Addition (α : Type) where
@@ -248,6 +292,7 @@ def parseAddition {α : Type} (inv : Policy) (a : Addition α) (v : α) : AddOut
 
 inductive DataErr (κ : Type) where
   | absence (k : κ) | parse (k : κ) | exceed (k : κ)
+  | dependencies         -- DependenciesAbsenceError (base.py:513-526, 618-631)
   | collected            -- only in the pre-fix model of `@property` outputs: `context.raise_error()`
   deriving DecidableEq, Repr
 
@@ -255,24 +300,46 @@ def lookup {κ α : Type} [DecidableEq κ] (k : κ) : List (κ × α) → Option
   | [] => none
   | (k', v) :: rest => if k' = k then some v else lookup k rest
 
-/-- the field loop of `field_first_parse` (base.py:535-588) -/
-def ffFields {κ α : Type} [DecidableEq κ] (inv : Policy) :
-    List (Field κ α) → List (κ × α) → Except (DataErr κ) (List (κ × α))
-  | [], _ => .ok []
+/-- what the field loops accumulate: `result` (insertion log), `unprovided_fields`, `dependencies` -/
+structure Acc (κ α : Type) where
+  res : List (κ × α)
+  unprov : List κ
+  deps : List κ
+
+def Acc.empty {κ α : Type} : Acc κ α := ⟨[], [], []⟩
+
+/-- the field was not given (or, after the fix, its value was excluded): base.py:586-597 -/
+def Acc.absent {κ α : Type} (f : Field κ α) (acc : Acc κ α) : Acc κ α :=
+  { acc with res := (match f.default with | some d => (f.name, d) :: acc.res | none => acc.res),
+             unprov := f.name :: acc.unprov }
+
+/-- the value was accepted: `result[name] = parsed`, `dependencies.update(field.dependencies)` -/
+def Acc.accept {κ α : Type} (f : Field κ α) (y : α) (acc : Acc κ α) : Acc κ α :=
+  { acc with res := (f.name, y) :: acc.res, deps := f.deps ++ acc.deps }
+
+/-- `lack` of base.py:618-625: a demanded dependency that was not given, or is not in the result -/
+def depsLack {κ α : Type} [DecidableEq κ] (deps unprov : List κ) (res : List (κ × α)) : Bool :=
+  deps.any fun d => unprov.contains d || !(res.map (·.1)).contains d
+
+/-- the field loop of `field_first_parse` (base.py:562-616).  `fix = true` is the code after
+`fixes/C11-excluded-as-absent.patch`; `fix = false` the code before it. -/
+def ffFieldsG {κ α : Type} [DecidableEq κ] (fix : Bool) (inv : Policy) :
+    List (Field κ α) → List (κ × α) → Except (DataErr κ) (Acc κ α)
+  | [], _ => .ok Acc.empty
   | f :: fs, data =>
     match lookup f.name data with
     | none =>
-      if f.required then .error (.absence f.name)                            -- :559-561
-      else match f.default with
-        | some d => (ffFields inv fs data).map ((f.name, d) :: ·)           -- :562-567
-        | none => ffFields inv fs data
+      if f.required then .error (.absence f.name)                            -- :586-588
+      else (ffFieldsG fix inv fs data).map (Acc.absent f)                    -- :585, 589-597
     | some x =>
-      match parseValue inv f x with
+      match fieldStep fix inv f x with
       | .raise => .error (.parse f.name)
-      | .unprovided => ffFields inv fs data                                  -- :581-582
-      | .value y => (ffFields inv fs data).map ((f.name, y) :: ·)           -- :584
+      | .unprovided =>
+        if fix then (ffFieldsG fix inv fs data).map (Acc.absent f)           -- fix: like a field not given
+        else ffFieldsG fix inv fs data                                       -- before: plain `continue`
+      | .value y => (ffFieldsG fix inv fs data).map (Acc.accept f y)         -- :612-616
 
-/-- the addition loop of `field_first_parse` (base.py:606-617) -/
+/-- the addition loop of `field_first_parse` (base.py:635-648) -/
 def ffAddition {κ α : Type} [DecidableEq κ] (inv : Policy) (a : Addition α) (names : List κ) :
     List (κ × α) → Except (DataErr κ) (List (κ × α))
   | [] => .ok []
@@ -288,55 +355,73 @@ def Addition.isIgnore {α : Type} : Addition α → Bool
   | .ignore => true
   | _ => false
 
-/-- `field_first_parse`; result = insertion log (fields, then `result.update(addition)`). -/
-def parseDataFF {κ α : Type} [DecidableEq κ] (inv : Policy) (fields : List (Field κ α)) (a : Addition α)
+/-- `field_first_parse`; result = insertion log (fields, then `result.update(addition)`).  The
+dependency check comes before the addition loop. -/
+def parseDataFFG {κ α : Type} [DecidableEq κ] (fix : Bool) (inv : Policy) (fields : List (Field κ α)) (a : Addition α)
     (data : List (κ × α)) : Except (DataErr κ) (List (κ × α)) :=
-  match ffFields inv fields data with
+  match ffFieldsG fix inv fields data with
   | .error e => .error e
-  | .ok r =>
-    if a.isIgnore then .ok r                                                 -- :606 `if options.addition is not None`
-    else (ffAddition inv a (fields.map (·.name)) data).map (r ++ ·)
+  | .ok acc =>
+    if depsLack acc.deps acc.unprov acc.res then .error .dependencies        -- :618-631
+    else if a.isIgnore then .ok acc.res                                      -- :635 `if options.addition is not None`
+    else (ffAddition inv a (fields.map (·.name)) data).map (acc.res ++ ·)
+
+/-- the repaired code -/
+def ffFields {κ α : Type} [DecidableEq κ] (inv : Policy) := ffFieldsG (κ := κ) (α := α) true inv
+def parseDataFF {κ α : Type} [DecidableEq κ] (inv : Policy) := parseDataFFG (κ := κ) (α := α) true inv
 
 def findField {κ α : Type} [DecidableEq κ] (k : κ) : List (Field κ α) → Option (Field κ α)
   | [] => none
   | f :: fs => if f.name = k then some f else findField k fs
 
-/-- the data loop of `data_first_parse` (base.py:436-473): returns (result, addition) logs -/
-def dfLoop {κ α : Type} [DecidableEq κ] (inv : Policy) (fields : List (Field κ α)) (a : Addition α) :
-    List (κ × α) → Except (DataErr κ) (List (κ × α) × List (κ × α))
-  | [] => .ok ([], [])
+/-- what the data loop of `data_first_parse` accumulates: result, addition, dependencies -/
+structure DAcc (κ α : Type) where
+  res : List (κ × α)
+  add : List (κ × α)
+  deps : List κ
+
+/-- the data loop of `data_first_parse` (base.py:457-495) -/
+def dfLoopG {κ α : Type} [DecidableEq κ] (fix : Bool) (inv : Policy) (fields : List (Field κ α)) (a : Addition α) :
+    List (κ × α) → Except (DataErr κ) (DAcc κ α)
+  | [] => .ok ⟨[], [], []⟩
   | (k, v) :: rest =>
     match findField k fields with
     | none =>
-      match parseAddition inv a v with                                       -- :439-443
-      | .value y => (dfLoop inv fields a rest).map (fun (r, ad) => (r, (k, y) :: ad))
-      | .unprovided => dfLoop inv fields a rest
+      match parseAddition inv a v with                                       -- :460-465
+      | .value y => (dfLoopG fix inv fields a rest).map fun acc => { acc with add := (k, y) :: acc.add }
+      | .unprovided => dfLoopG fix inv fields a rest
       | .exceed => .error (.exceed k)
       | .raise => .error (.parse k)
     | some f =>
-      match parseValue inv f v with                                          -- :464-468
+      match fieldStep fix inv f v with                                       -- :486-495
       | .raise => .error (.parse k)
-      | .unprovided => dfLoop inv fields a rest
-      | .value y => (dfLoop inv fields a rest).map (fun (r, ad) => ((k, y) :: r, ad))
+      | .unprovided => dfLoopG fix inv fields a rest
+      | .value y => (dfLoopG fix inv fields a rest).map fun acc =>
+          { acc with res := (k, y) :: acc.res, deps := f.deps ++ acc.deps }
 
-/-- the fill loop of `data_first_parse` (base.py:475-489) -/
-def dfFill {κ α : Type} [DecidableEq κ] (present : List κ) : List (Field κ α) → Except (DataErr κ) (List (κ × α))
-  | [] => .ok []
+/-- the fill loop of `data_first_parse` (base.py:497-511): (defaults, unprovided_fields) -/
+def dfFill {κ α : Type} [DecidableEq κ] (present : List κ) :
+    List (Field κ α) → Except (DataErr κ) (List (κ × α) × List κ)
+  | [] => .ok ([], [])
   | f :: fs =>
     if f.name ∈ present then dfFill present fs
     else if f.required then .error (.absence f.name)
-    else match f.default with
-      | some d => (dfFill present fs).map ((f.name, d) :: ·)
-      | none => dfFill present fs
+    else (dfFill present fs).map fun (l, up) =>
+      ((match f.default with | some d => (f.name, d) :: l | none => l), f.name :: up)
 
-def parseDataDF {κ α : Type} [DecidableEq κ] (inv : Policy) (fields : List (Field κ α)) (a : Addition α)
+def parseDataDFG {κ α : Type} [DecidableEq κ] (fix : Bool) (inv : Policy) (fields : List (Field κ α)) (a : Addition α)
     (data : List (κ × α)) : Except (DataErr κ) (List (κ × α)) :=
-  match dfLoop inv fields a data with
+  match dfLoopG fix inv fields a data with
   | .error e => .error e
-  | .ok (r, ad) =>
-    match dfFill (r.map (·.1)) fields with
+  | .ok acc =>
+    match dfFill (acc.res.map (·.1)) fields with
     | .error e => .error e
-    | .ok filled => .ok (r ++ filled ++ ad)
+    | .ok (filled, unprov) =>
+      if depsLack acc.deps unprov (acc.res ++ filled) then .error .dependencies   -- :513-526
+      else .ok (acc.res ++ filled ++ acc.add)
+
+def dfLoop {κ α : Type} [DecidableEq κ] (inv : Policy) := dfLoopG (κ := κ) (α := α) true inv
+def parseDataDF {κ α : Type} [DecidableEq κ] (inv : Policy) := parseDataDFG (κ := κ) (α := α) true inv
 
 /-! ### `*args: T` of a decorated function -/
 
@@ -361,6 +446,26 @@ def parseVarArgs {α : Type} (pol : Policy) (pt : Option (Parser α)) : Nat → 
     | .value y => (parseVarArgs pol pt (i + 1) xs).map (y :: ·)
     | .unprovided => parseVarArgs pol pt (i + 1) xs
     | .raise => .error (.item i)
+
+/-- the declared positional parameters in `parse_params` (func.py:627-646), for parameters that all
+carry a default: a parameter given positionally goes through `parse_value` (the default-returning
+path: an excluded argument is replaced by the parameter's default), one that is not given gets its
+default.  Returns the parsed parameters and the arguments left for `*args`. -/
+def parsePosParams {κ α : Type} (inv : Policy) : List (Field κ α) → Nat → List α → Except SeqErr (List α × List α)
+  | [], _, xs => .ok ([], xs)
+  | ps, _, [] => .ok (ps.filterMap (·.default), [])
+  | p :: ps, i, x :: xs =>
+    match parseValue inv p x with
+    | .raise => .error (.item i)
+    | .unprovided => parsePosParams inv ps (i + 1) xs                      -- :636-638 `continue`
+    | .value y => (parsePosParams inv ps (i + 1) xs).map fun (l, r) => (y :: l, r)
+
+/-- positional parameters, then `*args` -/
+def parseCallArgs {κ α : Type} (inv pitems : Policy) (ps : List (Field κ α)) (pt : Option (Parser α)) (xs : List α) :
+    Except SeqErr (List α × List α) :=
+  match parsePosParams inv ps 0 xs with
+  | .error e => .error e
+  | .ok (l, rest) => (parseVarArgs pitems pt ps.length rest).map fun r => (l, r)
 
 /-! ### `@property` outputs of a data class -/
 
